@@ -9,6 +9,11 @@ from . import rewrite as RW
 VERIF = os.path.dirname(os.path.dirname(os.path.abspath(__file__)))
 REPO = os.environ.get("VERIF_REPO", "/repo")
 
+# assumed std specifications available to every unit (widen the accepted subset so that small edits in
+# /repo that use these functions stay within the verifier's reach); listed as assumptions in the evidence
+STD_PRELUDE = """pub assume_specification<T>[ core::mem::replace::<T> ](dest: &mut T, src: T) -> (r: T) ensures *final(dest) == src, r == *old(dest);
+"""
+
 class LostAnchor(Exception):
     pass
 
@@ -105,7 +110,7 @@ class Built:
     def __init__(self):
         self.text = ""; self.ranges = []; self.notes = []; self.real_fns = []; self.ghost_fns = []
         self.stubs = []; self.clauses = 0; self.rewrites = {}; self.selfcheck = True; self.loops = 0
-        self.dropped = []
+        self.dropped = []; self.changed = set()
 
 def _emit(b, chunks, text, label, real, extra=None):
     start = sum(c.count("\n") for c in chunks) + 1
@@ -113,26 +118,27 @@ def _emit(b, chunks, text, label, real, extra=None):
     end = sum(c.count("\n") for c in chunks) + 1
     b.ranges.append({"start": start, "end": end, "label": label, "real": real, **(extra or {})})
 
-def _weave_real(b, unit, tmpl_item, src_item, label, rules):
+def _weave_real(b, unit, tmpl_item, src_item, label, rules, degrade=False):
     W.mark_item(tmpl_item)
     cur = RW.apply(src_item.toks, rules, b.rewrites)
     # the template skeleton is stored post-rewrite; apply the same (idempotent) rules to be safe
-    out, notes = W.weave(tmpl_item.toks, cur, label)
+    out, notes = W.weave(tmpl_item.toks, cur, label, degrade)
+    if any(n.startswith('DROPPED') or 'differs' in n for n in notes): b.changed.add(label)
     b.notes += notes
     # self-check: stripping the woven text gives back exactly the rewritten current tokens
     chk = [t.text for t in out if t.ann is None]
     if chk != [t.text for t in cur]:
         b.selfcheck = False
-    ncl = sum(1 for (p, k, r) in W.runs(tmpl_item.toks) if k == "clause")
+    ncl = sum(1 for (p, k, r) in W.runs(tmpl_item.toks) if k in ("clause", "lclause"))
     b.clauses += ncl
     return out, ncl
 
-def build(unit, strict=True, mutate=None, pid=None):
+def build(unit, strict=True, mutate=None, pid=None, degrade=(), extras=()):
     """returns Built. `mutate` (optional) is a function(text)->text applied to source files (canaries)."""
     t = Template(unit, strict=strict, pid=pid)
     b = Built(); b.template = t
-    chunks = ["// GENERATED by /verif/vf from /repo working tree + units/%s.rs -- do not edit\nuse vstd::prelude::*;\nverus! {\nglobal size_of usize == 8;\n" % unit]
-    b.ranges.append({"start": 1, "end": 5, "label": "<header>", "real": False})
+    chunks = ["// GENERATED by /verif/vf from /repo working tree + units/%s.rs -- do not edit\nuse vstd::prelude::*;\nverus! {\nglobal size_of usize == 8;\n" % unit + STD_PRELUDE]
+    b.ranges.append({"start": 1, "end": 6, "label": "<header>", "real": False})
     rules = ["vis", "static", "attr"] + t.meta["rewrite"]
     for s in t.sections:
         if s.kind == "spec":
@@ -185,19 +191,50 @@ def build(unit, strict=True, mutate=None, pid=None):
                         if not sm:
                             raise LostAnchor("lost-anchor: %s `%s` not found in impl %s of %s" % (m.kind, m.name, it.name, rel))
                         label = "%s::%s" % (it.name.split(" for ")[-1].strip(), m.name)
-                        out, ncl = _weave_real(b, unit, m, sm[0], label, rules)
+                        out, ncl = _weave_real(b, unit, m, sm[0], label, rules, label in degrade)
                         if m.kind == "fn":
                             b.real_fns.append({"fn": label, "file": rel, "line": sm[0].toks[sm[0].kw_idx].line, "clauses": ncl})
                         _emit(b, chunks, render(out) + "\n", label, True, {"file": rel, "src_line": sm[0].toks[0].line})
                     _emit(b, chunks, "}\n", "<impl-end>", False)
                 else:
                     label = it.name
-                    out, ncl = _weave_real(b, unit, it, cands[0], label, rules)
+                    out, ncl = _weave_real(b, unit, it, cands[0], label, rules, label in degrade)
                     if it.kind == "fn":
                         b.real_fns.append({"fn": label, "file": rel, "line": cands[0].toks[cands[0].kw_idx].line, "clauses": ncl})
                     _emit(b, chunks, render(out) + "\n", label, True, {"file": rel, "src_line": cands[0].toks[0].line})
         else:
             raise ValueError("unknown section kind " + s.kind)
+    # items that the current source calls but the template does not know (helpers introduced by a
+    # change in /repo): extracted as they are, without any contract
+    rels = [sec.arg or t.meta["source"] for sec in t.sections if sec.kind == "code"]
+    for (ty, name) in extras:
+        found = False
+        for rel in dict.fromkeys(rels):
+            src = source_items(rel)
+            if ty is None:
+                c = [x for x in src if x.name == name and x.kind in ("fn", "val", "struct", "enum", "type") and not _is_cfg_test(x)]
+                if c:
+                    cur = RW.apply(c[0].toks, rules, b.rewrites)
+                    _emit(b, chunks, render(cur) + "\n", name, True, {"file": rel, "src_line": c[0].toks[0].line, "auto": True})
+                    if c[0].kind == "fn": b.real_fns.append({"fn": name, "file": rel, "line": c[0].toks[c[0].kw_idx].line, "clauses": 0, "auto_extracted": True})
+                    b.notes.append("AUTO-EXTRACTED %s `%s` from %s: not in the template, no contract" % (c[0].kind, name, rel)); b.changed.add(name)
+                    found = True; break
+            else:
+                for imp in [x for x in src if x.kind == "impl" and x.name.split(" for ")[-1].strip().split("<")[0] == ty]:
+                    for m in impl_members(imp)[2]:
+                        if m.name == name and m.kind in ("fn", "val"):
+                            head = RW.apply(imp.toks[:first_brace_depth0(imp.toks, imp.kw_idx) + 1], rules, b.rewrites)
+                            cur = RW.apply(m.toks, rules, b.rewrites)
+                            _emit(b, chunks, render(head) + "\n", "<impl %s>" % imp.name, False)
+                            _emit(b, chunks, render(cur) + "\n", "%s::%s" % (ty, name), True, {"file": rel, "src_line": m.toks[0].line, "auto": True})
+                            _emit(b, chunks, "}\n", "<impl-end>", False)
+                            b.real_fns.append({"fn": "%s::%s" % (ty, name), "file": rel, "line": m.toks[m.kw_idx].line, "clauses": 0, "auto_extracted": True})
+                            b.notes.append("AUTO-EXTRACTED method `%s::%s` from %s: not in the template, no contract" % (ty, name, rel)); b.changed.add("%s::%s" % (ty, name))
+                            found = True; break
+                    if found: break
+                if found: break
+        if not found:
+            b.notes.append("missing item `%s%s` not found in the unit's source files" % ((ty + "::") if ty else "", name))
     chunks.append("\n} // verus!\nfn main() {}\n")
     b.text = "".join(chunks)
     return b
